@@ -55,7 +55,8 @@ class QGen:
         self.numbers = numbers or []
         self.doc = None      # document for '$'-rooted guidance
         self.ctx = None      # sample values of '@' at the current filter level
-        self.reached = None  # scalar reached by the last guided singular query
+        self.reached = _MISSING  # scalar reached by the last guided singular query
+        self.evalr = None    # optional reference evaluator used only to guide literals
         self.by_ret = {VALUE: [], LOGICAL: [], NODES: []}
         for n, f in self.registry.items():
             self.by_ret[f["ret"]].append(n)
@@ -177,6 +178,8 @@ class QGen:
                 segs.append(["child", [["index", i]]])
                 cursor = cursor[i]
             else:
+                if cursor is not _MISSING and r.random() < 0.8:
+                    break  # stop at the value reached instead of walking off the document
                 cursor = _MISSING
                 if r.random() < 0.7:
                     segs.append(["child", [["name", r.choice(self.names)]]])
@@ -227,9 +230,9 @@ class QGen:
             exp = r.choice(["e", "E"]) + r.choice(["", "+", "-"]) + r.choice(["0", "1", "2", "00", "01", "02", "3", "10"])
         return neg + ip + frac + exp
 
-    def literal(self, near=None):
+    def literal(self, near=_MISSING):
         r = self.r
-        if near is not None and near is not _MISSING and not isinstance(near, (dict, list)) and r.random() < 0.5:
+        if near is not _MISSING and not isinstance(near, (dict, list)) and r.random() < 0.85:
             if isinstance(near, bool) or near is None or isinstance(near, str):
                 return ["lit", near]
             t = repr(near)
@@ -295,13 +298,21 @@ class QGen:
             inner = ["paren", self.logical(fdepth, budget - 1)]
             return ["not", inner] if r.random() < 0.5 else inner
         if k < 9:
-            self.reached = None
-            left = self.singular() if r.random() < 0.7 else self.value_expr(fdepth, budget - 1)
+            self.reached = _MISSING
+            left = self.singular() if r.random() < 0.6 else self.value_expr(fdepth, budget - 1)
             reached = self.reached
+            if self.evalr is not None and self.ctx and left[0] != "lit":
+                # ask the reference what this comparand is for one of the children under test, so
+                # that the other side can be a literal that makes the comparison decisive
+                try:
+                    v = self.evalr.comparable(strip_hints(left), self.doc, r.choice(self.ctx))
+                    reached = v if not isinstance(v, (dict, list)) and type(v).__name__ != "_Nothing" else reached
+                except Exception:  # noqa: BLE001 - guidance only
+                    pass
             op = r.choice(OPS)
-            if reached is not None and reached is not _MISSING and r.random() < 0.65:
+            if reached is not _MISSING and not isinstance(reached, (dict, list)) and r.random() < 0.8:
                 right = self.literal(near=reached)
-                op = r.choice(["==", "==", "!=", "<=", ">=", "<", ">"])
+                op = r.choice(["==", "==", "==", "!=", "<=", ">=", "<", ">"])
             else:
                 right = self.value_expr(fdepth, budget - 1)
             if r.random() < 0.3:
